@@ -281,6 +281,9 @@ impl Directive {
                             messages: messages.clone(),
                         };
                         parse_file_internal(&context)?;
+                        include_paths
+                            .borrow_mut()
+                            .extend(context.include_paths.into_inner());
                     } else {
                         bail!("wrong format for .include, expected: {} in {}", opts, point,);
                     }
